@@ -14,6 +14,8 @@ func genMap(c *Ctx) {
 	destinationTables(c)
 	// ... and distinct packages get distinct imports and qualifiers
 	importTables(c)
+	// a type text follows its package's qualifier only while the Var and the registry share the *Package
+	gen.CheckVarNameOwners(c.Run, c.Prog)
 }
 
 func genGeneric(c *Ctx) {
@@ -35,6 +37,9 @@ func genMocks(c *Ctx) {
 	// the import registry is the one piece of state shared by the mocks of a run
 	gen.CheckImports(c.Run, c.Prog)
 	importTables(c)
+	// a mock rendered after a later mock's imports were registered still prints through the registry's own
+	// *Package values (no stale copies: G-SCOPE/element-address, G-VARNAME)
+	gen.CheckVarNameOwners(c.Run, c.Prog)
 }
 
 func genCompile(c *Ctx) {
@@ -49,4 +54,6 @@ func genCompile(c *Ctx) {
 	c.namingIdentOnly = true
 	namesTables(c, freeNameList(c, "G-RESERVED"), false, true)
 	gen.CheckVarNameOwners(c.Run, c.Prog)
+	// the self-check line and the mock's type parameter list are written from what LookupInterface returns
+	lookupTable(c)
 }
